@@ -147,7 +147,7 @@ def check_power(bp, pole_type):
             probs.append(f"[coverage] {e['name']}#{e['entity_number']}@({ex},{ey}) lies outside the supply area of every {pname}")
     n_cons = sum(1 for e in ents.values() if G.is_electric_consumer(e["name"]))
     n_unc = sum(1 for p_ in probs if p_.startswith("[coverage]"))
-    if n_cons and pole_type != "big" and n_unc * 2 > n_cons:
+    if n_cons and pole_type != "big" and n_unc >= 2 and n_unc * 2 > n_cons:   # a collapse needs several consumers: one missed consumer is the [coverage] class
         probs.append(f"[coverage-collapse] {n_unc} of {n_cons} electric consumers are outside every {pname} supply area ({len(poles)} poles emitted)")
     if n_cons and not poles:
         probs.append(f"[no-poles] --power-poles {pole_type} requested, {n_cons} electric consumers, but no {pname} emitted")
